@@ -255,13 +255,15 @@ func (g *G) intVal(p P, label string) int64 {
 		for _, x := range []int64{ub + 1, ub + 2, ub + 100} {
 			o = append(o, x)
 		}
-		for k := uint(7); k < 47; k++ {
+		for k := uint(7); k < 63; k++ {
 			for _, x := range []int64{1<<k - 1, 1 << k, 1<<k + 1} {
 				if x > ub {
 					o = append(o, x)
 				}
 			}
 		}
+		// contents of exactly 8 octets: 2^55 .. 2^63-1 (the largest value an int64 field can hold)
+		o = append(o, 1<<63-1, 1<<63-2, 1<<55, 1<<55-1)
 		g.ExtOutside++
 		return o[g.intn(0, len(o)-1, label+"x")]
 	}
